@@ -100,9 +100,13 @@ def one(task):
     w.file(t + b"/info/e.trashinfo", render(shape, path, date), 0o600)
     w.file(t + b"/files/e", b"payload")
     twin = TWINS.get(ptempl)
+    tname = b"twin"
+    if twin is None and (date is None or shape in ("no-header", "extra")):
+        # an entry without a (readable) date is read after a dated one (listed first): nothing of the neighbour's sticks
+        twin, tname = b"{ABS}/dated-neighbour", b"a-before"
     if twin:
-        w.file(t + b"/info/twin.trashinfo", render("std", twin.replace(b"{ABS}", vol + b"/w"), b"2024-03-01T12:00:00"), 0o600)
-        w.file(t + b"/files/twin", b"twin payload")
+        w.file(t + b"/info/" + tname + b".trashinfo", render("std", twin.replace(b"{ABS}", vol + b"/w"), b"2024-03-01T12:00:00"), 0o600)
+        w.file(t + b"/files/" + tname, b"twin payload")
     w.dir(vol + b"/w")
     meta = {"entries": [], "tdirs": [(t, None)], "profile": "c20", "payload_kinds": ["file"]}
     custom = {"userDirs": [t]} if kind == "custom" or cli else {}
@@ -162,7 +166,7 @@ def one(task):
             mism += [("rm", m_) for m_ in r3["mismatch"]]
             if (t + b"/info/e.trashinfo") in r3["after_state"] and b"\n" not in lpath:
                 problems.append("trash-rm does not match the path trash-list shows: %r" % lpath)
-            if twin and (t + b"/info/twin.trashinfo") not in r3["after_state"]:
+            if twin and (t + b"/info/" + tname + b".trashinfo") not in r3["after_state"]:
                 problems.append("trash-rm given the path of one entry removed another entry whose path differs: %r" % lpath)
     # trash-empty at the boundary of the date shown by list
     if not ldate.startswith(b"?"):
